@@ -126,9 +126,15 @@ def check_fenced(m, r, fails):
 def check_indented(m, r, fails):
     body = [l for l in gen_body(r, "`", 3, allow_blank=False)] or ["x"]
     body = [l for l in body if l.strip()] or ["x"]
-    container = r.choice(["top", "quote", "bullet-after-para"])
+    container = r.choice(["top", "quote", "bullet-after-para", "deep-quotes", "deep-mixed"])
     lines = ["    " + l for l in body]
-    if container == "top":
+    if container in ("deep-quotes", "deep-mixed"):
+        # inside the innermost container the nesting limit allows (and one level above it): every leaf block is still parsed there
+        k = r.choice([5, 6, 6])
+        pre = "> " * k if container == "deep-quotes" else "".join(r.choice(["> ", "> ", "- "]) for _ in range(k - 1)) + "> "
+        cont = pre.replace("- ", "  ")
+        doc = pre + "para\n" + cont.rstrip() + "\n" + "\n".join(cont + l for l in lines) + "\n"
+    elif container == "top":
         doc = "\n".join(lines) + "\n"
     elif container == "quote":
         doc = "\n".join(">" + " " + l for l in lines) + "\n"
@@ -256,7 +262,7 @@ def oracle(ctx, extra):
             "rule": "50% fenced blocks: fence char ` or ~, length 3/4/6, info strings, bodies of 0-5 lines drawn from 34 hostile lines "
                     "(markdown-looking text, entities, backslashes, tabs, blank lines, lines of 2 / 3 / 6 spaces, shorter / other-character / suffixed / 4-space-"
                     "indented fence runs) in 6 containers (top level with 0-3 spaces of fence indentation, quote, bullet item, ordered "
-                    "item, quote in list, list in quote); 25% indented code (top, quote, list item after a paragraph); 25% code spans (bodies with emphasis delimiters, brackets and plugin markers; inside plain text, emphasis and strong nested in each other, link text, headings, items, quotes) "
+                    "item, quote in list, list in quote); 25% indented code (top, quote, list item after a paragraph, inside 5 or 6 nested quotes / mixed containers, i.e. at the nesting limit); 25% code spans (bodies with emphasis delimiters, brackets and plugin markers; inside plain text, emphasis and strong nested in each other, link text, headings, items, quotes) "
                     "(content with spaces, newlines, backticks, markup, entities); token raw and unescaped HTML compared with the body",
             "samples": [json.dumps(wrap(["```", "a", "```"], "quote-in-list"))]}
 
